@@ -22,9 +22,9 @@ RUNTIME = [
     ("f = v => u\nf(1)", "undefined variable in lambda"),
     ("d[k]", "missing key / index"),
     ("l[i]", "missing key / index"),
-    ("d[k] += 1", "missing key in compound index assignment"),
-    ("l[i] += 1", "missing index in compound index assignment"),
-    ("l[i] = 1", "not listed: index assignment out of range"),
+    ("d[k] += one", "missing key in compound index assignment"),
+    ("l[i] += one", "missing index in compound index assignment"),
+    ("l[i] = one", "not listed: index assignment out of range"),
     ("e.pop()", "pop from empty"),
     ("l.pop(i)", "pop out of range"),
     ("pop(e, i)", "pop from empty"),
@@ -48,10 +48,10 @@ def runtime_failure(k: str, i: int, n: int) -> None:
     hlib.enter(locals())
     text, kind = RUNTIME[hlib.PARAM["t"]]
     full = [0] * 10000
-    names = {'x': 1, 'd': {'a': 1}, 'l': [1, 2], 'e': [], 'full': full, 'k': k, 'i': i}
+    names = {'x': 1, 'd': {'a': 1}, 'l': [1, 2], 'e': [], 'full': full, 'k': k, 'i': i, 'one': 1}
     out = run_eval(text, names, 50 if 'budget' not in kind else n)
     if out[0] == 'err' and not kind.startswith('not listed'):
-        assert issubclass(out[1], ParserError), "language-level failure (%s) escaped as a non-ParserError" % kind
+        assert issubclass(out[1], ParserError), "language-level failure (%s) escaped as %s" % (kind, out[1].__name__)
     hlib.done()
 
 
